@@ -389,6 +389,12 @@ def stream_match_tuple(tier, rng, kinds):
         for (a, b) in pairs:
             yield make_case(dict(stream="match-tuple", kind=k, narms=len(l)), [], match(var("s"), arms),
                             globs=[("s", T(I(k, a), I(k, b)))])
+        # a source of another arity: a tuple pattern matches only tuples of exactly its length (a shorter pattern is
+        # not a prefix pattern), so the 2-ary arms must all be passed over
+        triples = [(1, 0, 2), (0, 2, 1), (2, 2, 2)]
+        for (a, b, c) in (pick(rng, triples, 1) if tier == "quick" else triples):
+            yield make_case(dict(stream="match-tuple-arity", kind=k, narms=len(l)), [], match(var("s"), arms),
+                            globs=[("s", T(I(k, a), I(k, b), I(k, c)))])
     # nested tuples and a scalar source against tuple patterns
     for k in ("u64", "i16"):
         arms = [arm(PT(PV("a"), PT(PV("b"), PV("c"))), op("gt", var("a"), var("b")), var("a")),
